@@ -11,6 +11,15 @@ import (
 // IPNetworks is a parameter that contains a list of IP networks.
 type IPNetworks []IPNetwork
 
+// MarshalJSON implements json.Marshaler.
+// A nil list is encoded as an empty list, since the decoder refuses null.
+func (d IPNetworks) MarshalJSON() ([]byte, error) {
+	if d == nil {
+		return []byte("[]"), nil
+	}
+	return json.Marshal([]IPNetwork(d))
+}
+
 // UnmarshalEnv implements env.Unmarshaler.
 func (d *IPNetworks) UnmarshalEnv(_ string, v string) error {
 	if v == "" {
